@@ -6,12 +6,12 @@ cd $wt || exit 1
 git diff > $out/patch.diff
 cp demo_${pid}.py $out/ 2>/dev/null
 # bring the worktree to /repo's current HEAD with the patch on top
-git stash -q; git checkout -q --detach $(git -C /repo rev-parse HEAD); git stash pop -q || { echo "patch does not apply on current HEAD"; exit 1; }
+git apply -R $out/patch.diff; git checkout -q --detach $(git -C /repo rev-parse HEAD); git apply $out/patch.diff || { echo "patch does not apply on current HEAD"; exit 1; }
 export PYTHONPATH=$wt PYTHONHASHSEED=0
 echo "== demo with change"; timeout 600 /venv/bin/python demo_${pid}.py > $out/demo_with.txt 2>&1; echo "exit=$?" | tee -a $out/demo_with.txt
-git stash -q
+git apply -R $out/patch.diff
 echo "== demo without change"; timeout 600 /venv/bin/python demo_${pid}.py > $out/demo_without.txt 2>&1; echo "exit=$?" | tee -a $out/demo_without.txt
-git stash pop -q
+git apply $out/patch.diff
 echo "== tests with change"; timeout 1200 /venv/bin/python -m pytest -q -p no:cacheprovider --timeout=900 tests 2>&1 | tail -1 | tee $out/tests_with.txt
 cd /verif
 for c in $checks; do
